@@ -6,5 +6,6 @@ CONSTANTS
   BugKeepOnFlush = FALSE
   TrackerMutex = TRUE
   Prog <- P5
+  Post <- Probe1
 INVARIANTS Linearizable NoLostWakeup
 PROPERTIES Terminates
